@@ -162,9 +162,9 @@ func (g *G) excluded(id string) bool {
 	return false
 }
 
-var depDirPool = []string{"a/x", "b/x", "a/b/x", "c/a/b/x", "dep", "lib/dep", "util", "pkg/util", "x/v2", "x", "models", "api/models",
+var depDirPool = []string{"multivendor/api", "a/x", "b/x", "a/b/x", "c/a/b/x", "dep", "lib/dep", "util", "pkg/util", "x/v2", "x", "models", "api/models",
 	"db/models", "one", "two", "three", "a/one", "b/one"}
-var depDirConflict = []string{"a/x", "b/x", "a/b/x", "c/b/x", "c/a/b/x", "d/c/a/b/x", "b-c/x", "bc/x", "go-x", "x", "x-go", "x_y", "xy", "x.v2", "x/v2", "y/v2",
+var depDirConflict = []string{"multivendor/api", "xvendor/dep", "a/x", "b/x", "a/b/x", "c/b/x", "c/a/b/x", "d/c/a/b/x", "b-c/x", "bc/x", "go-x", "x", "x-go", "x_y", "xy", "x.v2", "x/v2", "y/v2",
 	"yaml.v3", "k8s.io/api", "api", "v1/api", "v2/api", "sync", "my/sync", "io", "my/io", "context", "my/context", "errors", "time",
 	"my/time", "template", "my/template", "rand", "http", "my/http", "a/http", "b/http", "1x", "type", "a/type", "go/ast", "url"}
 
@@ -526,7 +526,7 @@ func (g *G) namedCands(needCmp bool) []namedCand {
 	var cs []namedCand
 	addPkg := func(p *Pkg, localAll bool) {
 		for _, d := range p.Decls {
-			if d.Constr {
+			if d.Constr || d.NonType != "" {
 				continue
 			}
 			if needCmp && !d.Cmp && d.NTParams == 0 {
@@ -874,10 +874,14 @@ func (g *G) sig(depth int, inner bool) *Sig {
 		})
 		for i := 0; i < j && i < len(pkgs); i++ {
 			n := pkgs[i]
-			if !used[n] && !IsKeyword(n) && !Predeclared[n] && !g.declNames[n] {
+			if !used[n] && !IsKeyword(n) && !Predeclared[n] && !g.declNames[n] && (!fold[foldKey(n)] || !g.Open["F-F"]) {
 				delete(used, s.Params[i].Name)
+				if old := s.Params[i].Name; old != "" && old != "_" {
+					delete(fold, foldKey(old))
+				}
 				s.Params[i].Name = n
 				used[n] = true
+				fold[foldKey(n)] = true
 				g.label("param:shadows-later-import")
 			}
 		}
@@ -955,10 +959,44 @@ func (g *G) sig(depth int, inner bool) *Sig {
 
 // ---------------------------------------------------------------- source package
 
-var srcDirPool = []string{"src", "pkg/api", "svc", "app/core", "store", "api-v1", "my_pkg"}
+var srcDirPool = []string{"src", "pkg/api", "svc", "app/core", "store", "api-v1", "my_pkg", "src", "svc", "sync", "lib/io", "my/context", "time"}
 
 func (g *G) genLocals() {
 	add := func(d *Decl) { g.locals = append(g.locals, d); g.src.Decls = append(g.src.Decls, d) }
+	defer func() {
+		// package-level objects that are not types (arguments naming them must be handled, not crash)
+		if !g.Chance(35) {
+			return
+		}
+		var iface *Decl
+		for _, d := range g.locals {
+			if d.Iface && d.NTParams == 0 {
+				iface = d
+			}
+		}
+		for k := 0; k < 1+g.Int(0, 1); k++ {
+			switch g.Int(0, 3) {
+			case 0:
+				if iface != nil {
+					d := &Decl{Name: g.freshTop([]string{"Default", "Global", "Instance"}, true), NonType: "var-iface", Exported: true}
+					d.Src = fmt.Sprintf("var %s %s", d.Name, iface.Name)
+					add(d)
+				}
+			case 1:
+				d := &Decl{Name: g.freshTop([]string{"ErrNotFound", "ErrClosed"}, true), NonType: "var-error", Exported: true}
+				d.Src = fmt.Sprintf("var %s error", d.Name)
+				add(d)
+			case 2:
+				d := &Decl{Name: g.freshTop([]string{"Helper", "NewThing"}, true), NonType: "func", Exported: true}
+				d.Src = fmt.Sprintf("func %s() {}", d.Name)
+				add(d)
+			default:
+				d := &Decl{Name: g.freshTop([]string{"MaxItems", "Version"}, true), NonType: "const", Exported: true}
+				d.Src = fmt.Sprintf("const %s = 1", d.Name)
+				add(d)
+			}
+		}
+	}()
 	n := g.Int(0, 5)
 	for i := 0; i < n; i++ {
 		exported := !g.inPlace || g.Chance(60)
@@ -1080,12 +1118,27 @@ func (g *G) genTParams(skipEnsure bool) ([]TParamDecl, bool) {
 			}
 			if len(named) > 0 && g.Chance(60) && !g.excluded("F-I") && hardKind() {
 				a := named[g.Int(0, len(named)-1)]
-				tp.Terms = []*Ty{{K: KNamed, Name: a.d.Name, Pkg: a.p, Cmp: true}}
+				term := func(nc namedCand) *Ty {
+					t := &Ty{K: KNamed, Name: nc.d.Name, Pkg: nc.p, Cmp: true}
+					switch g.Int(0, 3) {
+					case 0: // ~[]pkg.T
+						return &Ty{K: KBasic, Name: "~[]" + "\x00", Elem: t}
+					case 1: // ~map[string]pkg.T
+						return &Ty{K: KBasic, Name: "~map[string]" + "\x00", Elem: t}
+					}
+					return t
+				}
+				tp.Terms = []*Ty{term(a)}
 				if b := named[g.Int(0, len(named)-1)]; b != a {
-					tp.Terms = append(tp.Terms, &Ty{K: KNamed, Name: b.d.Name, Pkg: b.p, Cmp: true})
+					tp.Terms = append(tp.Terms, term(b))
 				}
 				tp.TermsIface = g.Chance(50)
 				tp.ConSrc, tp.Kind = "", "union-inline-named"
+				for _, t := range tp.Terms {
+					if t.K != KNamed {
+						tp.Cmp = false // ~[]T / ~map[..]T terms are not comparable
+					}
+				}
 			}
 		case k == 7 || k == 8:
 			// named method interface as constraint
@@ -1581,6 +1634,18 @@ func (g *G) Case() *core.Case {
 
 	g.genDeps()
 	dir := g.Pick(srcDirPool)
+	for tries := 0; tries < 20; tries++ {
+		clash := false
+		for _, p := range g.deps {
+			if p.Dir == dir || strings.HasPrefix(p.Dir, dir+"/") || strings.HasPrefix(dir, p.Dir+"/") {
+				clash = true
+			}
+		}
+		if !clash {
+			break
+		}
+		dir = g.Pick(srcDirPool)
+	}
 	name := pkgNameForDir(dir)
 	if dir == "api-v1" {
 		name = "api"
